@@ -288,6 +288,18 @@ where
             let b = Bases::generate(&p, t[1].parse().unwrap());
             Out::Ok(vec![zlist(&b.0)])
         }
+        // clcpkjson N|n nb: a commitment key with nb bases through its JSON encoding: 1 when it comes back unchanged
+        "clcpkjson" => {
+            let n = if t[0] == "N" { None } else { Some(z(t[0])) };
+            let k = if t[1] == "N" { None } else { Some(t[1].parse::<usize>().unwrap()) };
+            let c = CL03CommitmentPublicKey::generate::<CS>(n, k);
+            let j = serde_json::to_string(&c).unwrap();
+            let c2: Result<CL03CommitmentPublicKey, _> = serde_json::from_str(&j);
+            match c2 {
+                Ok(c2) => okb(c2 == c),
+                Err(_) => Out::Err,
+            }
+        }
         "clcpk" => {
             let n = if t[0] == "N" { None } else { Some(z(t[0])) };
             let k = if t[1] == "N" { None } else { Some(t[1].parse::<usize>().unwrap()) };
